@@ -40,6 +40,8 @@ def owned_digest(plugin: str, out: str) -> Dict[str, str]:
         files = [os.path.join("lsprotocol", "types.py")]
     elif plugin == "rust":
         files = [os.path.join("lsprotocol", "src", "lib.rs")]
+        if os.path.exists(os.path.join(out, "_tests", "src", "main.rs")):
+            files.append(os.path.join("_tests", "src", "main.rs"))   # the region of the test harness that the plugin rewrites
     elif plugin == "dotnet":
         d = os.path.join(out, "lsprotocol")
         files = [os.path.join("lsprotocol", n) for n in sorted(os.listdir(d)) if n.endswith(".cs")] if os.path.isdir(d) else []
@@ -335,7 +337,7 @@ def child_inprocess(plugin: str, lists: Dict[str, List[str]], order: List[str]) 
             else:
                 docs = [json.load(open(p_)) for p_ in lists[key]]
                 spec = specs[key] = gmodel.create_lsp_model(docs)
-            mod.generate(spec, d, os.path.join(d, "_tests"))
+            mod.generate(spec, d, gen.prepare_test_dir(plugin, d))
             out.append([key, owned_digest(plugin, d)])
         except Exception as e:
             out.append([key, {"<plugin failed>": f"{type(e).__name__}: {e}"[:200]}])
